@@ -2,6 +2,7 @@
 returns the truth value; a missing anchor fails closed."""
 import json, os, re
 from core import *
+from core import _SignRel as core_SignRel
 import sends as sendsmod
 
 
@@ -774,6 +775,8 @@ def m_rel(rel, a_pats, b_pats, holds, a_forbid=(), b_forbid=(), pure=False):
     False: `A rel B => Err`). a_forbid/b_forbid: atoms that must NOT occur on that side; pure: neither side may
     involve arithmetic (OP atoms) beyond what a_pats/b_pats name - pins the shape `x rel y` against `x+1 rel y`."""
     def m(c):
+        if c.kind == 'pred' and isinstance(c.pred, str) and c.pred.endswith(('::is_negative', '::is_positive', '::is_zero')):
+            c = core_SignRel(c)
         t = match_rel(c, rel, a_pats, b_pats)
         if t is None:
             return None
@@ -801,6 +804,28 @@ def m_rel(rel, a_pats, b_pats, holds, a_forbid=(), b_forbid=(), pure=False):
 def m_pred(callee_suffix, arg_pats, holds, direct=None):
     """boolean predicate call `callee(args)`; direct='Adt.field': the predicate's receiver must be exactly that field"""
     def m(c):
+        if c.kind == 'rel' and direct is None and callee_suffix in ('is_negative', 'is_positive', 'is_zero'):
+            # `x < 0`, `0 < x`, `x == 0` spelled as comparisons with the zero constant
+            za, zb = is_zero_side(c.A), is_zero_side(c.B)
+            if za == zb:
+                return None
+            other = c.B if za else c.A
+            if not has_all(other, arg_pats):
+                return None
+            r = c.rel          # canonical rels: lt, le, eq, ne (A rel B)
+            if callee_suffix == 'is_zero':
+                return (True if holds else False) if r == 'eq' else ((False if holds else True) if r == 'ne' else None)
+            neg_true = (r == 'lt' and zb)            # x < 0
+            neg_false = (r == 'le' and za)           # 0 <= x   == !(x < 0)
+            pos_true = (r == 'lt' and za)            # 0 < x
+            pos_false = (r == 'le' and zb)           # x <= 0   == !(0 < x)
+            if callee_suffix == 'is_negative':
+                t = True if neg_true else (False if neg_false else None)
+            else:
+                t = True if pos_true else (False if pos_false else None)
+            if t is None:
+                return None
+            return t if holds else (not t)
         if c.kind != 'pred' or not isinstance(c.pred, str):
             return None
         if not (c.pred.endswith(callee_suffix)):
